@@ -365,6 +365,19 @@ func unitabCase() map[string]any {
 			}
 		}
 	}
+	// LowOk of the C06 proofs, for unicode.ToLower: it fixes every rune of UnquotedKeySpecials and 'n', keeps every
+	// other rune outside that set, and preserves unicode.IsSpace.  Violations are listed (none expected).
+	lowBad := []int{}
+	for r := rune(0); r <= unicode.MaxRune; r++ {
+		if r >= 0xD800 && r <= 0xDFFF {
+			continue
+		}
+		l := unicode.ToLower(r)
+		special := strings.ContainsRune(d2ast.UnquotedKeySpecials, r)
+		if special && l != r || !special && strings.ContainsRune(d2ast.UnquotedKeySpecials, l) || unicode.IsSpace(l) != unicode.IsSpace(r) || (r == 'n' && l != 'n') {
+			lowBad = append(lowBad, int(r))
+		}
+	}
 	// strings.ToLower / EqualFold agree with the per-rune functions on samples that mix the special runes
 	samples := []string{"LİNK", "linK", "ſuspend", "FALſE", "NULL", "Ⱥ", "ǅ", "İ", "ẞ"}
 	var sl []any
@@ -373,7 +386,7 @@ func unitabCase() map[string]any {
 			"foldnull": strings.EqualFold(s, "null"), "foldsuspend": strings.EqualFold(s, "suspend"), "foldfalse": strings.EqualFold(s, "false")})
 	}
 	return map[string]any{"k": "unitab", "in": map[string]any{}, "out": map[string]any{
-		"lowerToASCII": lowerToASCII, "foldToASCII": foldToASCII, "spaces": spaces, "samples": sl}}
+		"lowerToASCII": lowerToASCII, "foldToASCII": foldToASCII, "spaces": spaces, "samples": sl, "lowOkViolations": lowBad}}
 }
 
 func emitStr(c *hl.Ctx, s string) {
